@@ -498,4 +498,54 @@ Section WithCarrier.
     intros G HD. rewrite !full_auc_mw; try assumption; [reflexivity|].
     destruct G; constructor; assumption.
   Qed.
+
+  (* ---------- C07, clause: complementing the y-axis ---------- *)
+  Theorem complement_y s lo up : good s -> lo <= up ->
+    auc succ pred s lo up AFpr AFnr == (up - lo) - auc succ pred s lo up AFpr ATpr.
+  Proof.
+    intros G H. rewrite !auc_fpr by exact G.
+    destruct (opts_lens s (axis_at AFpr s) (axis_at ATpr s) G) as [HL H1].
+    set (X := map (axis_at AFpr s) (opts s)) in *. set (Y := map (axis_at ATpr s) (opts s)) in *.
+    assert (E : window X (map (axis_at AFnr s) (opts s)) lo up == (up - lo) - window X Y lo up).
+    { rewrite <- window_compl by assumption. apply window_F2; [apply F2_refl|].
+      unfold Y. rewrite map_map. apply F2_map. intros t. apply fnr_at, G. }
+    rewrite E.
+    assert (0 <= window X Y lo up) by (apply window_fpr_tpr_nonneg; assumption).
+    assert (window X Y lo up <= up - lo).
+    { apply window_le; auto; [apply fpr_sorted, G|]. apply Forall_map_range. intros t. apply tpr_range, G. }
+    rewrite !Qabs_pos by lra. reflexivity.
+  Qed.
+
+  (* ---------- C07, clause: complementing the x-axis mirrors the interval ---------- *)
+  Theorem mirror_x s lo up : good s ->
+    auc succ pred s (1 - up) (1 - lo) ATnr ATpr == auc succ pred s lo up AFpr ATpr.
+  Proof.
+    intros G. rewrite auc_fpr, auc_tnr by exact G.
+    destruct (opts_lens s (axis_at AFpr s) (axis_at ATpr s) G) as [HL H1].
+    assert (E : window (map (axis_at ATnr s) (rev (opts s))) (map (axis_at ATpr s) (rev (opts s))) (1 - up) (1 - lo)
+                == window (map (axis_at AFpr s) (opts s)) (map (axis_at ATpr s) (opts s)) lo up).
+    { rewrite <- (window_mirror _ _ lo up) by assumption.
+      apply window_F2.
+      - rewrite map_rev. apply F2_rev. rewrite map_map. apply F2_map. intros t. apply tnr_at, G.
+      - rewrite map_rev. apply F2_refl. }
+    rewrite E. reflexivity.
+  Qed.
+
+  (* ---------- C07, clause: exchanging the axes over the full range ---------- *)
+  Theorem swap_axes_full s : good s ->
+    auc succ pred s 0 1 ATpr AFpr == 1 - auc succ pred s 0 1 AFpr ATpr.
+  Proof.
+    intros G. rewrite auc_fpr, auc_tpr by exact G.
+    destruct (opts_lens s (axis_at AFpr s) (axis_at ATpr s) G) as [HL H1].
+    destruct (opts_lens s (axis_at ATpr s) (axis_at AFpr s) G) as [HL' H1'].
+    assert (N1 : 0 <= window (map (axis_at AFpr s) (opts s)) (map (axis_at ATpr s) (opts s)) 0 1)
+      by (apply window_fpr_tpr_nonneg; [exact G|lra]).
+    assert (N2 : 0 <= window (map (axis_at ATpr s) (opts s)) (map (axis_at AFpr s) (opts s)) 0 1).
+    { apply window_nonneg; auto; [apply tpr_sorted, G| |lra]. apply Forall_map_range. intros t. apply fpr_range, G. }
+    rewrite !Qabs_pos by assumption.
+    rewrite !window_full; try assumption; try (apply Forall_map_range; intros t; first [apply fpr_range, G|apply tpr_range, G]).
+    rewrite !trapz_map, !hd_map, !last_map by (apply opts_ne, G).
+    pose proof (trapzf_swap_axes 0 (axis_at AFpr s) (axis_at ATpr s) (opts s)) as SW.
+    rewrite fpr_ofirst, fpr_olast, tpr_olast in * by exact G. lra.
+  Qed.
 End WithCarrier.
